@@ -159,7 +159,7 @@ func runCheck(o *options, overlay map[string][]byte) (*checkResult, error) {
 			continue
 		}
 		name := shortPkg(ct.PkgPath) + "." + ct.Key
-		if o.only != "" && !strings.Contains(name, o.only) && !strings.Contains(o.only, name) {
+		if o.only != "" && !strings.Contains(name, strings.SplitN(o.only, "#", 2)[0]) {
 			continue
 		}
 		if o.dump {
@@ -178,10 +178,21 @@ func runCheck(o *options, overlay map[string][]byte) (*checkResult, error) {
 			res.errors = append(res.errors, fmt.Sprintf("engine %s: %v", eng, err))
 		}
 	}
+	w.runFieldInvs(o, res)
+	for _, r := range res.reports {
+		if r.Ctx == nil {
+			continue
+		}
+		for fi := range r.Ctx.usedFieldInv {
+			if !contains(fi.Props, o.prop) {
+				res.errors = append(res.errors, fmt.Sprintf("%s uses field invariant %s.%s which is not proved under property %s", r.Name, fi.Type, fi.Field, o.prop))
+			}
+		}
+	}
 	if o.only != "" {
 		var f []*Obligation
 		for _, ob := range res.obls {
-			if strings.Contains(ob.Name, o.only) || strings.Contains(o.only, ob.Func) {
+			if strings.Contains(ob.Name, o.only) {
 				f = append(f, ob)
 			}
 		}
